@@ -489,8 +489,8 @@ def rule_dtype(repo, tier):
 def rule_domain(repo, tier):
     """Extent 0 is a legal batch extent (empty batches are in the stated range).  math.log2 / math.log / math.sqrt of a shape extent raise a
     'math domain error' at 0, so every such call on an extent is dominated by a test that ends the function (or skips the call) for 0."""
-    res = RuleResult('C06.DOM', 'math.log2 / math.log of a shape extent is reached only after an exit for the extent 0: scans along an empty dimension '
-                     'return the (empty) input instead of raising a math domain error', floor=1)
+    res = RuleResult('C06.DOM', 'math.log2 / math.log of a shape extent, and an index range torch.arange(start, extent) with a positive start, are reached only after an '
+                     'exit for the extent 0: scans along an empty dimension return the (empty) input instead of raising', floor=1)
     n = 0
     for modname in ('pypose.basics.ops', 'pypose.lietensor.lietensor', 'pypose.lietensor.utils', 'pypose.lietensor.operation'):
         for f in repo.module(modname).functions.values():
@@ -504,9 +504,13 @@ def rule_domain(repo, tier):
                                                         (isinstance(v, ast.Call) and isinstance(v.func, ast.Attribute) and v.func.attr in ('size', 'numel'))):
                             ext[t.id] = a
             for c in paths.calls_in(f.node):
-                if dotted(c.func) in ('math.log2', 'math.log', 'math.log10') and c.args:
-                    names = {x.id for x in ast.walk(c.args[0]) if isinstance(x, ast.Name)} & set(ext)
-                    direct = any(isinstance(x, ast.Attribute) and x.attr in ('shape', 'lshape') for x in ast.walk(c.args[0]))
+                is_log = dotted(c.func) in ('math.log2', 'math.log', 'math.log10') and c.args
+                # torch.arange(start, E) raises "upper bound and lower bound inconsistent with step sign" when the extent E is below a positive start
+                is_range = dotted(c.func) == 'torch.arange' and len(c.args) >= 2 and not (isinstance(c.args[0], ast.Constant) and c.args[0].value == 0)
+                if is_log or is_range:
+                    arg = c.args[0] if is_log else c.args[1]
+                    names = {x.id for x in ast.walk(arg) if isinstance(x, ast.Name)} & set(ext)
+                    direct = any(isinstance(x, ast.Attribute) and x.attr in ('shape', 'lshape') for x in ast.walk(arg))
                     if not names and not direct:
                         continue
                     n += 1
@@ -527,10 +531,18 @@ def rule_domain(repo, tier):
                             guarded_ = True
                     res.inst({'function': f.fq, 'site': src(c)[:50], 'extent': sorted(names), 'exit for extent 0 before it': guarded_}, (f.fq, src(c)))
                     if not guarded_:
-                        res.add(Finding('C06.DOM', f, '`%s` takes the logarithm of the extent `%s` without an earlier exit for 0: along an empty dimension the '
-                                        'function raises "math domain error" instead of returning the empty result' % (src(c)[:50], ', '.join(sorted(names)) or src(c.args[0])), node=c))
+                        res.add(Finding('C06.DOM', f, '`%s` %s the extent `%s` without an earlier exit for 0: along an empty dimension the function raises (%s) instead '
+                                        'of returning the empty result' % (src(c)[:50], 'takes the logarithm of' if is_log else 'builds an index range that ends at',
+                                                                           ', '.join(sorted(names)) or src(arg)[:30], '"math domain error"' if is_log else
+                                                                           '"upper bound and lower bound inconsistent with step sign"'), node=c))
     if n == 0:
-        raise AnalysisError('C06.DOM: no logarithm of an extent found (cumops_ changed?)')
+        # the pass count of the scan is an integer expression today ((L - 1).bit_length(), defined for every extent): nothing that has a domain is applied to an
+        # extent.  The rule stays armed for a logarithm / square root coming back.
+        f = repo.func('pypose.basics.ops', 'cumops_')
+        res.inst({'function': f.fq, 'math-domain functions applied to an extent': 0}, (f.fq, 'none'))
+        fx = ast.parse('def g(x, dim):\n    L = x.shape[dim]\n    return math.log2(L)\n').body[0]
+        if not any(dotted(c.func) == 'math.log2' for c in ast.walk(fx) if isinstance(c, ast.Call)):
+            raise AnalysisError('C06.DOM: fixture not recognised')
     return res
 
 
@@ -672,7 +684,7 @@ def rule_width(repo, tier):
 
 
 def _rules_core(repo, tier):
-    return [rule_like(repo, tier), rule_domain(repo, tier), rule_mut(repo, tier), rule_patch(repo, tier), rule_bcast(repo, tier), rule_wrap(repo, tier), rule_dtype(repo, tier), rule_width(repo, tier), rule_ownmem(repo, tier)]
+    return [rule_like(repo, tier), rule_domain(repo, tier), rule_mut(repo, tier), rule_patch(repo, tier), rule_bcast(repo, tier), rule_wrap(repo, tier), rule_dtype(repo, tier), rule_width(repo, tier), rule_ownmem(repo, tier), __import__('sa.rules.c03', fromlist=['x']).rule_mat(repo, 'C06.MAT')]
 
 
 def rules(repo, tier):
@@ -687,4 +699,4 @@ def rules(repo, tier):
                                                       'before it is complete - a later call with the same object and other contents must not be answered from it',
                                                       ['pypose.lietensor.lietensor', 'pypose.lietensor.operation', 'pypose.lietensor.basics', 'pypose.lietensor.utils', 'pypose.lietensor.convert'], floor=3),
             rule_optional(repo, 'C06.OPT', ['pypose.lietensor.lietensor', 'pypose.lietensor.operation', 'pypose.lietensor.basics', 'pypose.lietensor.utils', 'pypose.lietensor.convert'])] + mode_rules(repo, 'C06', ['pypose.lietensor.lietensor', 'pypose.lietensor.operation', 'pypose.lietensor.basics', 'pypose.lietensor.utils', 'pypose.lietensor.convert']) + [rule_callsig(repo, 'C06.SIG', ['pypose.lietensor.lietensor', 'pypose.lietensor.operation', 'pypose.lietensor.basics', 'pypose.lietensor.utils', 'pypose.lietensor.convert']), rule_docsig(repo, 'C06.DOC', ['pypose.lietensor.lietensor', 'pypose.lietensor.operation', 'pypose.lietensor.basics', 'pypose.lietensor.utils', 'pypose.lietensor.convert'])] + [
-            rule_axisdefault(repo, 'C06.AXDEF', ['pypose.lietensor.lietensor', 'pypose.lietensor.operation', 'pypose.lietensor.basics', 'pypose.lietensor.utils', 'pypose.lietensor.convert', 'pypose.basics.ops']), __import__('sa.axisdefault', fromlist=['x']).rule_frontaxis(repo, 'C06.BAX', ['pypose.lietensor.lietensor', 'pypose.lietensor.operation', 'pypose.lietensor.basics', 'pypose.lietensor.utils', 'pypose.lietensor.convert']), __import__('sa.unused', fromlist=['x']).rule_unused(repo, 'C06.UNUSEDF', ['pypose.func.jac'], floor=1), __import__('sa.axisdefault', fromlist=['x']).rule_viewarg(repo, 'C06.VIEW', ['pypose.lietensor.lietensor', 'pypose.lietensor.operation', 'pypose.lietensor.basics', 'pypose.lietensor.convert', 'pypose.basics.ops']), __import__('sa.axisdefault', fromlist=['x']).rule_batchbranch(repo, 'C06.BIF', ['pypose.lietensor.lietensor', 'pypose.lietensor.operation', 'pypose.lietensor.basics', 'pypose.basics.ops'])]
+            rule_axisdefault(repo, 'C06.AXDEF', ['pypose.lietensor.lietensor', 'pypose.lietensor.operation', 'pypose.lietensor.basics', 'pypose.lietensor.utils', 'pypose.lietensor.convert', 'pypose.basics.ops']), __import__('sa.axisdefault', fromlist=['x']).rule_frontaxis(repo, 'C06.BAX', ['pypose.lietensor.lietensor', 'pypose.lietensor.operation', 'pypose.lietensor.basics', 'pypose.lietensor.utils', 'pypose.lietensor.convert']), __import__('sa.axisdefault', fromlist=['x']).rule_regroup(repo, 'C06.REGROUP', ['pypose.lietensor.lietensor', 'pypose.lietensor.operation', 'pypose.lietensor.basics', 'pypose.lietensor.utils', 'pypose.lietensor.convert']), __import__('sa.unused', fromlist=['x']).rule_unused(repo, 'C06.UNUSEDF', ['pypose.func.jac'], floor=1), __import__('sa.axisdefault', fromlist=['x']).rule_viewarg(repo, 'C06.VIEW', ['pypose.lietensor.lietensor', 'pypose.lietensor.operation', 'pypose.lietensor.basics', 'pypose.lietensor.convert', 'pypose.basics.ops']), __import__('sa.axisdefault', fromlist=['x']).rule_batchbranch(repo, 'C06.BIF', ['pypose.lietensor.lietensor', 'pypose.lietensor.operation', 'pypose.lietensor.basics', 'pypose.basics.ops'])]
